@@ -11,6 +11,7 @@ import (
 
 	"github.com/fiorix/go-diameter/v4/diam"
 	"github.com/fiorix/go-diameter/v4/diam/datatype"
+	"github.com/fiorix/go-diameter/v4/diam/dict"
 	"verif/internal/atoms"
 	"verif/internal/ev"
 	"verif/internal/refcodec"
@@ -135,6 +136,59 @@ type C18Case struct {
 	Vals    []int  // value indexes (for T/*T: one; -1 = nil pointer; for slices: list; nil = nil slice)
 	Static  string // name of a static shape
 	Variant int
+	Priv    bool // static shape marshalled into a message that carries the private dictionary c18PrivXML
+}
+
+// c18PrivXML gives every AVP name the static shapes use a definition that differs from the
+// default dictionary's in code, flags and vendor id (same data type, so the Go fields still fit).
+const c18PrivXML = `<?xml version="1.0" encoding="UTF-8"?>
+<diameter><application id="0" name="PrivC18">
+<command code="257" short="CE" name="Capabilities-Exchange"><request><rule avp="Origin-Host" required="false"/></request><answer><rule avp="Origin-Host" required="false"/></answer></command>
+<avp name="Origin-Host" code="9264" must="-" may="P" must-not="V" may-encrypt="-"><data type="DiameterIdentity"/></avp>
+<avp name="Origin-Realm" code="9296" must="M" may="P" must-not="-" may-encrypt="-" vendor-id="4321"><data type="DiameterIdentity"/></avp>
+<avp name="Result-Code" code="9268" must="-" may="P" must-not="V" may-encrypt="-"><data type="Unsigned32"/></avp>
+<avp name="Session-Id" code="9263" must="M" may="P" must-not="V" may-encrypt="-"><data type="UTF8String"/></avp>
+<avp name="Vendor-Specific-Application-Id" code="9260" must="-" may="P" must-not="V" may-encrypt="-"><data type="Grouped"/></avp>
+<avp name="Failed-AVP" code="9279" must="M" may="P" must-not="-" may-encrypt="-" vendor-id="4321"><data type="Grouped"/></avp>
+<avp name="Vendor-Id" code="9266" must="-" may="P" must-not="V" may-encrypt="-"><data type="Unsigned32"/></avp>
+<avp name="Auth-Application-Id" code="9258" must="M" may="P" must-not="-" may-encrypt="-" vendor-id="777"><data type="Unsigned32"/></avp>
+<avp name="Acct-Application-Id" code="9259" must="-" may="P" must-not="V" may-encrypt="-"><data type="Unsigned32"/></avp>
+</application></diameter>`
+
+// c18PrivMap: default code -> (code, flags, vendor) a caller would build by hand from c18PrivXML.
+var c18PrivMap = map[uint32][3]uint32{
+	264: {9264, 0x00, 0}, 296: {9296, 0xC0, 4321}, 268: {9268, 0x00, 0}, 263: {9263, 0x40, 0},
+	260: {9260, 0x00, 0}, 279: {9279, 0xC0, 4321}, 266: {9266, 0x00, 0}, 258: {9258, 0xC0, 777}, 259: {9259, 0x00, 0},
+}
+
+func c18PrivNodes(ns []refcodec.Node) []refcodec.Node {
+	var out []refcodec.Node
+	for _, n := range ns {
+		x, ok := c18PrivMap[n.Code]
+		if !ok {
+			panic(fmt.Sprint("c18PrivMap lacks code ", n.Code))
+		}
+		n.Code, n.Flags, n.Vendor = x[0], uint8(x[1]), x[2]
+		n.Children = c18PrivNodes(n.Children)
+		out = append(out, n)
+	}
+	return out
+}
+
+var c18Priv *dict.Parser
+
+func c18PrivDict() *dict.Parser {
+	if c18Priv == nil {
+		p, err := dict.NewParser()
+		if err == nil {
+			err = p.Load(strings.NewReader(c18PrivXML))
+		}
+		if err != nil {
+			ev.Infra("C18 private dictionary: %v", err)
+		}
+		c18Priv = p
+	}
+	return c18Priv
 }
 
 var c18TagForms = []struct {
@@ -154,6 +208,9 @@ var c18TagForms = []struct {
 
 func (c C18Case) Desc() string {
 	if c.Static != "" {
+		if c.Priv {
+			return fmt.Sprintf("static shape %s variant %d, message carrying a private dictionary", c.Static, c.Variant)
+		}
 		return fmt.Sprintf("static shape %s variant %d", c.Static, c.Variant)
 	}
 	a := c18Table()[c.AVP]
@@ -576,12 +633,16 @@ func c18StaticEval(cs C18Case) string {
 		if !ok {
 			return ""
 		}
-		c := ConfigByName("default/app0")
+		parser := ConfigByName("default/app0").A.D.P
+		if cs.Priv {
+			parser = c18PrivDict()
+			wantNodes = c18PrivNodes(wantNodes)
+		}
 		var want []byte
 		for _, n := range wantNodes {
 			want = append(want, refcodec.EncodeAVP(n)...)
 		}
-		m := diam.NewMessage(257, 0x80, 0, 1, 2, c.A.D.P)
+		m := diam.NewMessage(257, 0x80, 0, 1, 2, parser)
 		if err := m.Marshal(src); err != nil {
 			return "Marshal failed: " + err.Error()
 		}
@@ -595,7 +656,7 @@ func c18StaticEval(cs C18Case) string {
 		for _, via := range []string{"direct", "wire"} {
 			mm := m
 			if via == "wire" {
-				mm, err = diam.ReadMessage(bytes.NewReader(got), c.A.D.P)
+				mm, err = diam.ReadMessage(bytes.NewReader(got), parser)
 				if err != nil {
 					return "marshalled message cannot be read back: " + err.Error()
 				}
@@ -687,10 +748,13 @@ func runC18(ctx *ev.Ctx) {
 		for v := 0; v < 30; v++ {
 			if _, _, ok := s.mk(v); ok {
 				run(C18Case{AVP: -1, Static: s.name, Variant: v})
+				if !strings.Contains(s.name, "AVP-field") {
+					run(C18Case{AVP: -1, Static: s.name, Variant: v, Priv: true})
+				}
 			}
 		}
 	}
-	ctx.Rule = "struct types built with reflect.StructOf: one field for each of 21 dictionary AVPs (including a vendor-specific AVP whose must attribute does not list V and a vendor-less one whose must does) (every scalar data type, a vendor-specific AVP, Float32/64, IPv4/6, IPFilterRule, QoSFilterRule from a generated dictionary) x each Go holder type (native scalar, datatype type, net.IP, []byte, time.Time) x wrapper {T, *T, []T, []*T} x nine tag forms (plain, omitempty, each with a second key before/after, other keys carrying their own ,omitempty option before/after) x values {boundary atoms; nil pointer; nil, empty, 1-, 2- and 4-element slices}; plus static shapes: nested struct, pointer to struct, slice of structs with omitempty members, slice of pointers, anonymous embedded struct (first, after a tagged field, in the middle), group in group, AVP / *AVP / []*AVP fields. Oracle: the AVP bytes Marshal produces equal the AVPs built by hand from the reference dictionary entry (code, vendor id, M from must, V from vendor, typed value); Unmarshal directly and after Serialize+ReadMessage reproduces the field values (nil == empty for slices, times by second, floats by bits)."
+	ctx.Rule = "struct types built with reflect.StructOf: one field for each of 21 dictionary AVPs (including a vendor-specific AVP whose must attribute does not list V and a vendor-less one whose must does) (every scalar data type, a vendor-specific AVP, Float32/64, IPv4/6, IPFilterRule, QoSFilterRule from a generated dictionary) x each Go holder type (native scalar, datatype type, net.IP, []byte, time.Time) x wrapper {T, *T, []T, []*T} x nine tag forms (plain, omitempty, each with a second key before/after, other keys carrying their own ,omitempty option before/after) x values {boundary atoms; nil pointer; nil, empty, 1-, 2- and 4-element slices}; plus static shapes: nested struct, pointer to struct, slice of structs with omitempty members, slice of pointers, anonymous embedded struct (first, after a tagged field, in the middle), group in group, AVP / *AVP / []*AVP fields; the struct shapes also in a message carrying a private dictionary that defines every name used with another code, other flags and vendor ids (members of nested structs must be resolved through the message's dictionary too). Oracle: the AVP bytes Marshal produces equal the AVPs built by hand from the reference dictionary entry (code, vendor id, M from must, V from vendor, typed value); Unmarshal directly and after Serialize+ReadMessage reproduces the field values (nil == empty for slices, times by second, floats by bits)."
 	ctx.Assume = []string{"holder types are those for which the reflect code has a conversion path (AssignableTo / ConvertibleTo); Address holders carry IPv4 / IPv6 only"}
 }
 
